@@ -95,6 +95,16 @@ var c18DefShapes = []*c18n{
 			c18Cs("a1", c18L("xa", false), c18LD("da", "va")),
 			c18Cs("a2", c18NP("na", c18LD("dn", "vn")), c18LD("db", "vb"),
 				c18ChD("chb", "b1", c18Cs("b1", c18LD("dc", "vc")), c18Cs("b2", c18L("xb", false)))))),
+	// like-named nodes at different levels: a case named like its choice, a choice named
+	// like the case that holds it
+	c18NP("top",
+		c18ChD("addr", "",
+			c18Cs("addr", c18L("ip", false), c18LD("prefix", "32")),
+			c18Cs("dhcp", c18L("client", false))),
+		c18ChD("auth", "",
+			c18Cs("pw", c18L("user", false),
+				c18ChD("pw", "plain", c18Cs("plain", c18LD("enc", "utf8")), c18Cs("hashed", c18L("hash", false)))),
+			c18Cs("none", c18L("anon", false)))),
 }
 
 func c18Build(n *c18n) Node {
